@@ -1016,6 +1016,12 @@ func (f *Frame) assumeWf(st *State, v *Term, t types.Type) {
 		}
 		f.kindInvariant(v, t)
 		si := f.structInfo(t)
+		if f.ctx.eng.assumeKindInv && f.ctx.eng.sorts.typeName(types.Unalias(t)) == "ast.TypeConstraint" {
+			if ai := si.FieldIndex("Args"); ai >= 0 {
+				f.ctx.assumeOnce("constraintargs:"+v.String(), Gt(SlcLen(si.Get(v, ai)), IntLit(0)))
+				f.ctx.trusted["IR well-formedness: every TypeConstraint carries at least one argument (all three parsers build them that way)"] = true
+			}
+		}
 		if f.ctx.eng.assumeKindInv && f.ctx.eng.sorts.typeName(types.Unalias(t)) == "ast.EnumValue" {
 			if ti := si.FieldIndex("Type"); ti >= 0 {
 				tsi := f.structInfo(si.Fields[ti].Type)
